@@ -67,6 +67,17 @@ const Matrix<double>& AutoCorrelationTransitionMatrix::getPij() const
 
 const std::vector<double>& AutoCorrelationTransitionMatrix::getEquilibriumFrequencies() const
 {
+  // pi_i is proportional to 1 / (1 - lambda_i)
+  double sum = 0;
+  for (size_t i = 0; i < vAutocorrel_.size(); ++i)
+  {
+    eqFreq_[i] = 1. / (1. - vAutocorrel_[i]);
+    sum += eqFreq_[i];
+  }
+  for (size_t i = 0; i < vAutocorrel_.size(); ++i)
+  {
+    eqFreq_[i] /= sum;
+  }
   return eqFreq_;
 }
 
